@@ -157,8 +157,11 @@ def c03(res, wd):
     engines.s2i_runs(res, "C03", wd, "g2p", {"MaxFrame": 8, "PredDefault": "TRUE", "MaxSteps": depth - 10},
                      ns, depth, {"C03"})
     n, frames = sizes(res.tier, (8, 400), (60, 2000))
+    rng3 = random.Random(res.seed * 1000 + 31)
     ps = plans.batch(res.seed * 1000 + 6, n, frames, cfg={"predictor": "default"}, change=0.7)
     ps += plans.batch(res.seed * 1000 + 7, n, frames, cfg={"predictor": "repeat"}, change=0.3, alphabet=16)
+    # drops: the Disconnected status must be truthful too (default input, after the cut-off only)
+    ps += [_drop_plan(rng3, rng3.choice([60, 120])) for _ in range(sizes(res.tier, 8, 40))]
     engines.obs_runs(res, "C03", ps, {"C03"}, wd, "c03",
                      nontrivial=lambda st, pl: st["predicted"] >= 10 and st["corrected"] >= 1)
     res.rule = ("MC_Queue.tla: the input queue alone, exhaustive with a 4-6 slot ring (wrap-around) under a protocol-"
@@ -487,13 +490,13 @@ def _drop_plan(rng, frames):
          "lat_lo": rng.choice([2, 10, 40]), "lat_hi": rng.choice([40, 60, 120]),
          "loss": rng.choice([0.0, 0.0, 0.1, 0.3]), "dup": 0.0, "alphabet": 4,
          "change": rng.choice([0.3, 1.0]), "drain": True,
-         "max_ms": 60000, "settle_ms": timeout + 1500}
+         "max_ms": 60000, "settle_ms": timeout + 1500, "after_drop_progress": 30}
     if rng.random() < 0.5:
         p["kills"] = [{"p": 1, "at_frame": at}]
     else:
         # explicit disconnect_player while inputs of the dropped player (delayed ones in particular) are
         # ahead of the survivor's frame: the cut-off frame itself is simulated after the flag is set
-        p["discs"] = [{"p": 0, "h": peers[1]["locals"][-1], "at_frame": at}]
+        p["discs"] = [{"p": 0, "h": rng.choice(peers[1]["locals"]), "at_frame": at}]
         if rng.random() < 0.6:
             peers[1]["delay"] = rng.choice([1, 2, 4])
     return p
@@ -556,6 +559,18 @@ def c09(res, wd):
         p["cfg"]["peers"][rng.randrange(2)]["corrupt_from"] = f0
         p["p_pause"] = 0.0
         p["settle_ms"] = 500
+        if i % 2 == 0:
+            # packets towards one peer are held for a while and arrive in a burst before the divergence: the
+            # confirmed frame jumps by several report intervals in one call
+            f0b = f0 + 40
+            p["cfg"]["peers"][0].pop("corrupt_from", None)
+            p["cfg"]["peers"][1].pop("corrupt_from", None)
+            p["cfg"]["peers"][rng.randrange(2)]["corrupt_from"] = f0b
+            p["frames"] = f0b + 8 * interval + 60
+            v = rng.randrange(2)
+            p["outages"] = [{"from": 1 - v, "to": v, "start": 400, "len": rng.choice([80, 120, 200])}]
+            p["cfg"]["window"] = max(p["cfg"]["window"], 8)
+            p["tick_ms"] = [16, 16]
         det.append(p)
     engines.obs_runs(res, "C09", det, {"C09"}, wd, "c09det", nontrivial=lambda st, pl: st["events"] >= 1)
     res.rule = ("false-alarm half: no DesyncDetected event in any exhaustive model run (interval 1..2), replayed TLC "
